@@ -1,7 +1,11 @@
 #!/bin/bash
-# Offline setup: build the explorer once so that the build cache is warm.
+# Offline setup: build the explorer once (plain and -race) so that the build cache is warm.
 set -e
 cd "$(dirname "$0")"
-export GOFLAGS=-mod=mod GOPROXY=off GOSUMDB=off GOTOOLCHAIN=local CGO_ENABLED=0
+export GOFLAGS=-mod=mod GOPROXY=off GOSUMDB=off GOTOOLCHAIN=local
 ./run.sh --build
+mkdir -p .work
+CGO_ENABLED=1 go1.26 build -race -tags verif -o .work/vcheck-race-warm ./cmd/vcheck && rm -f .work/vcheck-race-warm
+CGO_ENABLED=0 go1.26 build -tags "verif c18" -o .work/vcheck-c18-warm ./cmd/vcheck 2>/dev/null || true
+rm -f .work/vcheck-c18-warm
 echo "setup ok: $(bin/vcheck list | tr '\n' ' ')"
